@@ -454,6 +454,29 @@ func genConv13(g *Gen, w *bufio.Writer) {
 	for l := 0; l < 12; l++ {
 		fmt.Fprintf(w, "conv snssai2m %d %s\n", l, hexs(g.Bytes(8)))
 	}
+	// requested NSSAI: an entry of every length 0..12 that is NOT one of the five forms, complete (all its octets present), alone, at
+	// the head, in the middle and at the tail of an otherwise well-formed list: a malformed length is an error wherever it stands
+	for bad := 0; bad <= 12; bad++ {
+		if bad == 1 || bad == 2 || bad == 4 || bad == 5 || bad == 8 {
+			continue
+		}
+		entry := append([]byte{byte(bad)}, g.Bytes(bad)...)
+		good := func() []byte {
+			l := []int{1, 2, 4, 5, 8}[g.Intn(5)]
+			return append([]byte{byte(l)}, g.Bytes(l)...)
+		}
+		for _, shape := range [][3]int{{0, 0, 0}, {0, 0, 1}, {1, 0, 0}, {1, 0, 1}, {2, 0, 2}} {
+			var b []byte
+			for i := 0; i < shape[0]; i++ {
+				b = append(b, good()...)
+			}
+			b = append(b, entry...)
+			for i := 0; i < shape[2]; i++ {
+				b = append(b, good()...)
+			}
+			fmt.Fprintf(w, "conv reqnssai %d %s\n", len(b), hexs(b))
+		}
+	}
 	// requested NSSAI: lists of 1..8 (and 0, 9..12) entries of every form mix; the library's encoder output too
 	forms := []int{1, 2, 4, 5, 8}
 	for n := 0; n <= 12; n++ {
